@@ -554,14 +554,15 @@ pub fn type_pair_family(k: usize, tier: Tier) -> Vec<String> {
 // The late-hole family: a parameter without annotation (`x =>`, a hole written at one depth) whose type
 // is fixed only further in, under more binders and definition groups, by the way `x` is used: every
 // sequence of up to two binders before it (a type parameter, an integer parameter), every sequence of
-// up to three items after it (a function parameter over the type parameter, a boolean parameter, the
-// groups `t = int` / `t = bool` around the rest) and six bodies. The solution recorded for the hole is
+// up to three items after it (a function parameter over the type parameter, a boolean parameter, a
+// parameter of the type parameter's type, the groups `t = int` / `t = bool` around the rest) and
+// fourteen bodies. The solution recorded for the hole is
 // then looked at from several depths and across definitions. Ill-scoped members are rejected by the
 // parser and do not count.
 pub fn late_hole_family() -> Vec<String> {
     let pre = ["(a : type) => ", "(n : int) => "];
-    let mid = ["(f : a -> int) => ", "(c : bool) => ", "(t = int; @)", "(t = bool; @)", "(g : int -> a) => "];
-    let bodies = ["f x", "x + 1", "if c then x else f x", "if c then f x else x", "if c then x else g n", "(y : t = x; y)", "(y : t = x; z : bool = x; 0)", "(y : t = x; x + 1)", "(y : t = x; if x then 1 else 2)", "(z : bool = x; y : t = x; 0)", "(y : t = 3; (if false then y else x) + 1)", "(y : t = 3; if false then x else y)"];
+    let mid = ["(f : a -> int) => ", "(c : bool) => ", "(t = int; @)", "(t = bool; @)", "(g : int -> a) => ", "(w : a) => "];
+    let bodies = ["f x", "x + 1", "if c then x else f x", "if c then f x else x", "if c then x else g n", "(y : t = x; y)", "(y : t = x; z : bool = x; 0)", "(y : t = x; x + 1)", "(y : t = x; if x then 1 else 2)", "(z : bool = x; y : t = x; 0)", "(y : t = 3; (if false then y else x) + 1)", "(y : t = 3; if false then x else y)", "(y : t = if true then x else w; y)", "(y : t = if true then w else x; y)"];
     let mut pres: Vec<String> = vec![String::new()];
     for p in pre {
         pres.push(p.to_owned());
